@@ -24,7 +24,7 @@ from mc.ref import typing as rt
 PROPERTY = "C14"
 MAXTASKS = 50
 RULE = (
-    "every sequence of <=2 operations (<=3 in thorough) from an alphabet of 49 concrete operations, every "
+    "every sequence of <=2 operations (<=3 in thorough) from an alphabet of 51 concrete operations, every "
     "sequence of 3 (4 in thorough) over a reduced 14-operation alphabet; "
     "operations range over 5 environments (module default, two instances, a subclass with "
     "max_recursion_depth=2, a subclass registering its own function), 8 queries and 4 documents, each "
@@ -94,6 +94,10 @@ def ops_alphabet(tier_small=False):
     ops += [("recompile_after_unregister", "E1"), ("recompile_after_unregister", "D"),
             ("recompile_after_resignature", "E2"), ("recompile_after_range_change", "E1"),
             ("refind_after_range_change", "E2")]
+    # a compiled query is applied, then the function it calls is registered again with another
+    # implementation on the same environment: the old compiled query and a fresh compile of the same
+    # text must behave identically (both follow the registry as it is when they are applied)
+    ops += [("handle_after_reregister", "E1"), ("handle_after_reregister", "E2")]
     # many rejected compilations on one environment: nothing may be left behind in its parser / lexer
     ops += [("reject_many", "E1"), ("reject_many", "D")]
     # a valid pattern, then patterns that are not I-Regexps (twice): always false, whatever came before
@@ -329,6 +333,24 @@ def run_history(hist):
             w.mutate(d)
             exp = m.expect(e, q, d, w.docs)
             obs = observe(lambda: w.env(e).find(Q[q], w.docs[d]))
+        elif kind == "handle_after_reregister":
+            _, e = op
+            env = w.env(e)
+            env.function_extensions["f1"] = w.make_f1(F_IMPL[e])
+            m.funcs[e].add("f1")
+            old = env.compile(Q["qF"])
+            first = observe(lambda: old.find(w.docs["d1"]))
+            exp1 = m.expect(e, "qF", "d1", w.docs)
+            if tuple(exp1) != tuple(first[:2]):
+                return (i, op, exp1, first[:2])
+            # now f1(x) is true iff x == 3 (it was x == F_IMPL[e])
+            env.function_extensions["f1"] = w.make_f1(3)
+            fresh = env.compile(Q["qF"])
+            a = observe(lambda: old.find(w.docs["d1"]))
+            b = observe(lambda: fresh.find(w.docs["d1"]))
+            exp = ("ok", [["l", 2]])
+            obs = a if tuple(a[:2]) != tuple(exp) else b
+            env.function_extensions["f1"] = w.make_f1(F_IMPL[e])
         elif kind == "valid_then_invalid_pattern":
             _, e = op
             env = w.env(e)
